@@ -14,29 +14,43 @@ from vlib.core import EPS32, EPS64, Facet, Skip, Violation, check_close, eps_of
 
 PROPERTY = "C17"
 MANIFEST = {
-    "text": "Generated-input search (Hypothesis) over dimensions, shapes, dtypes, batch sizes, derivative modes, spacings "
-            "(default / list / scalar / per-item), strides and elastic constants. Oracles: closed-form values of every "
-            "gradient term on affine fields (Jacobian A known exactly) and of bending/curvature on quadratic fields; "
-            "null-space relations (translations, affine fields, adding an affine field); exact homogeneity laws under "
-            "u -> c u and h -> s h; a float64 numpy tensor-product cubic B-spline for the spline bending energy; the "
-            "textbook elastic-moduli table (forward formulas (lambda, mu) -> (E, nu) plus an independent inverse table) for "
-            "all 9 valid keyword pairs; inverse-consistency error of exactly inverse affine pairs (matrix, flow, mixed; "
-            "group exponentials of invariant generators) composed with a known constant offset, in cube/voxel/world units "
-            "for both align_corners conventions with margins and masks. Exploration: no absence proof; the bounds are "
-            "K*eps*condition so that wrong factors, paddings, index orders and unit conversions are orders of magnitude above them.",
+    "text": "Generated-input search (Hypothesis) over dimensions, shapes, dtypes, batch sizes, derivative modes (incl. gaussian and "
+            "bspline), `sigma`, spacings (default / list / scalar / (1, D) / (N, D) / (N, 1) tensors), strides and elastic constants. "
+            "Oracles: closed-form values of every gradient term on affine fields (Jacobian A known exactly) and of bending/curvature "
+            "on quadratic fields, for every mode with anisotropic spacing and with Gaussian pre-smoothing (interior margins derived "
+            "from stencil reach and kernel radius; for mode='gaussian' within the derived deviation of the sampled truncated "
+            "derivative-of-Gaussian kernel from the continuous one); null-space relations (translations, affine fields, adding an "
+            "affine field); exact homogeneity laws under u -> c u and h -> s h; per-axis spacing laws on fields that vary along one "
+            "axis (independent of the other spacings, power law in the spacing of that axis, per batch item); the Gaussian transfer "
+            "function on sinusoids (sigma honoured by every term and mode); numpy models of the finite-difference / Sobel / Prewitt "
+            "stencils and a float64 tensor-product cubic B-spline on noise fields; the textbook elastic-moduli table for all 9 "
+            "valid keyword pairs; inverse-consistency error of exactly inverse affine pairs (matrix, flow - also sampled on lattices "
+            "of another size -, mixed) composed with a known constant offset, in cube/voxel/world units for both align_corners "
+            "conventions with margins and masks. Exploration: no absence proof; the bounds are K*eps*condition (plus the derived "
+            "kernel-discretisation envelopes) so that wrong factors, paddings, index orders and unit conversions are far above them.",
     "note": "Trusted: numpy/scipy (expm, inv), the cubic B-spline basis in vlib/ref.py (self-tested), the reference "
-            "constructions in props/c17.py (self-tested elastic table). CPU only; float32/float64; shapes 5..12 per axis. "
-            "forward/backward/central modes replicate-pad the boundary, so their values are compared in the interior only; "
-            "mode 'gaussian' is only used for the sign/scaling laws (its kernel is not exact on polynomials).",
-    "technique": "property-based testing (Hypothesis) with closed-form reference values, an independent numpy reference "
-                 "model and metamorphic scaling/null-space relations",
+            "constructions in props/c17.py (self-tested elastic table, stencil and Gaussian kernel models). CPU only; float32/float64; "
+            "shapes 5..19 per axis. forward/backward/central modes replicate-pad the boundary, so their values are compared in the "
+            "interior only; Gaussian kernels (sigma, mode='gaussian') are modelled as documented: sampled Gaussian truncated at "
+            "floor(3 sigma), default sigma 0.7355; assertions accept everything between that kernel and the continuous Gaussian.",
+    "technique": "property-based testing (Hypothesis) with closed-form reference values, independent numpy reference "
+                 "models and metamorphic scaling/null-space relations",
 }
 ASSUMPTIONS = [
     "derivative modes forward/backward/central use replicate padding (one-sided stencil at one boundary): analytic "
     "values and null-space statements are asserted one (first order) / two (second order) samples away from the boundary",
-    "mode='gaussian' takes part in non-negativity, homogeneity and spacing laws only",
+    "Gaussian pre-smoothing (`sigma`, replicate padding) and mode='gaussian' reproduce polynomials only where the kernel does not "
+    "reach the boundary: values on affine / quadratic fields are asserted kernel radius (+ stencil reach; times the derivative "
+    "order for mode='gaussian') samples away from it; translations are asserted to give zero everywhere",
+    "mode='gaussian' values on affine / quadratic fields and sinusoids are asserted within the rigorous bound of the deviation of "
+    "the discrete moments / frequency response of the documented kernel (sampled Gaussian, std sigma or 0.7355, truncated at "
+    "floor(3 sigma)) from those of the continuous Gaussian (0.6 % per derivative for the default sigma), normalised or not",
+    "second derivatives of the finite-difference modes on non-polynomial fields are not compared with a stencil model (how the "
+    "first-order schemes are composed is not documented); the Sobel / Prewitt averaging is the textbook (1 2 1)/4, (1 1 1)/3 "
+    "kernel along the other axes and is compared away from the boundary only",
     "elastic constants are generated with Poisson ratio in [0.05, 0.45] (all conversions well conditioned, lambda, mu >= 1e-3)",
-    "inverse-consistency pairs are constructed (no rejection) so that forward images of grid points stay inside the sample hull",
+    "inverse-consistency pairs are constructed (no rejection) so that forward images of grid points stay inside the sample hull; "
+    "flow fields on lattices of another size have at least the size of the grid for align_corners=False (hull containment)",
 ]
 
 FULL_MODES = (None, "forward_central_backward", "sobel", "prewitt")  # exact on affine fields at every sample
@@ -103,6 +117,102 @@ def region(mode, order, D):
     return (slice(None), slice(None)) + (slice(m, -m) if m else slice(None),) * D
 
 
+def interior(margins):
+    """Index of the samples of a 'none' output at least margins[a] (x-order) samples away from either boundary."""
+    return (slice(None), slice(None)) + tuple(slice(m, -m) if m else slice(None) for m in reversed(margins))
+
+
+# --- Gaussian kernels -------------------------------------------------------------------------------------------------
+# spatial_derivatives() documents: mode='gaussian' convolves with a derivative-of-Gaussian kernel of standard deviation
+# `sigma` (default 0.7355, in grid units); for the other modes a positive `sigma` smooths the input with a Gaussian first.
+# gaussian_kernel_radius() documents the truncation at 3 standard deviations.  The *ideal* (continuous, untruncated)
+# operators reproduce polynomials exactly; the sampled, truncated kernel does so up to the deviation of its discrete
+# moments from the continuous ones.  The model below computes those moments / transfer functions in float64; assertions
+# accept everything between the ideal operator and the documented sampled kernel (normalised or not).
+
+DEFAULT_GAUSS_SIGMA = 0.7355
+SIGMAS = (0.6, 0.9, 1.1)   # 3 sigma is at least 0.2 away from an integer: floor(3 sigma) is the same in float32 and float64
+
+
+def kernel_radius(sigma):
+    return int(math.floor(3.0 * float(sigma))) if sigma else 0
+
+
+def kernel_samples(sigma):
+    r = kernel_radius(sigma)
+    x = np.arange(-r, r + 1, dtype=np.float64)
+    g = np.exp(-0.5 * (x / sigma) ** 2) / (sigma * math.sqrt(2 * math.pi))
+    return x, g
+
+
+def kernel_moments(sigma):
+    """(M0, b): sum of the sampled truncated Gaussian; its second moment over sigma^2 (1 for the continuous Gaussian)."""
+    x, g = kernel_samples(sigma)
+    return float(g.sum()), float((g * x * x).sum() / sigma ** 2)
+
+
+def gauss_env(sigma, D, m):
+    """Relative deviation allowed for an m-th order derivative of a polynomial of degree m in mode='gaussian'.
+
+    The sampled kernel maps d/dx_a of an affine field to b * M0^(D-1) times the true value (odd derivative kernel along a,
+    smoothing kernels along the other axes), second derivatives of quadratics to the square of that.  Normalising either
+    kernel divides by M0.  Every variant is a product of m * D factors within [1 - |1 - b|, 1 + |1 - b|] or
+    [1 - |1 - M0|, 1 + |1 - M0|]; the envelope is the rigorous bound of |1 - product|."""
+    M0, b = kernel_moments(sigma)
+    return ((1 + abs(1 - b)) * (1 + abs(1 - M0)) ** D) ** m - 1
+
+
+def smooth_response(sigma, w):
+    """(centre, tolerance) of the amplitude factor of cos(w i) under Gaussian smoothing with std sigma.
+
+    centre: normalised sampled truncated kernel; tolerance: distance to the continuous Gaussian exp(-sigma^2 w^2 / 2) plus
+    the effect of not normalising."""
+    x, g = kernel_samples(sigma)
+    M0 = float(g.sum())
+    centre = float((g * np.cos(w * x)).sum() / M0)
+    return centre, abs(centre - math.exp(-0.5 * (sigma * w) ** 2)) + abs(1 - M0) * abs(centre)
+
+
+def gauss_derivative_response(sigma, w, D, m):
+    """(centre, tolerance) of R: mode='gaussian' maps cos(w i + phi), constant along the other axes, to
+    -R sin(w i + phi) (m = 1) or -R cos(w i + phi) (m = 2, first-derivative kernel applied twice); ideal R = (w G(w))^m."""
+    x, g = kernel_samples(sigma)
+    M0 = float(g.sum())
+    R1 = float((g * x / sigma ** 2 * np.sin(w * x)).sum()) * M0 ** (D - 1)
+    centre = R1 ** m
+    ideal = (w * math.exp(-0.5 * (sigma * w) ** 2)) ** m
+    return centre, abs(centre - ideal) + ((1 + abs(1 - M0)) ** (m * D) - 1) * abs(centre)
+
+
+def poly_margins(mode, order, sigma, D, stride=None, full_exact=True):
+    """Samples (x-order, in output samples) next to the boundary where values on polynomial fields are not asserted.
+
+    mode='gaussian': every pass replicate-pads by the kernel radius -> order * radius.  Other modes: Gaussian pre-smoothing
+    (replicate padding) changes a polynomial field within `radius` samples of the boundary; the difference stencils reach
+    `order` samples further; B-spline derivatives at output sample j use the coefficients floor(j / s) .. floor(j / s) + 3.
+    forward/backward/central replicate-pad the boundary themselves (`order` samples); the other modes are exact up to the
+    boundary if full_exact (affine fields; quadratic fields need the central stencil: full_exact=False)."""
+    if mode == "gaussian":
+        return [order * kernel_radius(sigma or DEFAULT_GAUSS_SIGMA)] * D
+    r = kernel_radius(sigma)
+    if mode == "bspline":
+        s = stride_list(stride, D)
+        return [r * s[a] for a in range(D)]
+    if mode in INNER_MODES or r or not full_exact:
+        return [r + order] * D
+    return [0] * D
+
+
+def min_axis_len(mode, order, sigma, stride_max=1):
+    """Smallest number of samples per axis leaving at least two asserted samples (see poly_margins)."""
+    if mode == "gaussian":
+        return max(5, 2 * order * kernel_radius(sigma or DEFAULT_GAUSS_SIGMA) + 2)
+    r = kernel_radius(sigma)
+    if mode == "bspline":
+        return max(5, 2 * r + 5)
+    return max(5, 2 * (r + order) + 2)
+
+
 def mode_class(term, mode):
     m = mode
     if m is None and term in ("bending", "curvature"):
@@ -126,8 +236,17 @@ def spacing_arg(case, N):
     if form == "scalar":
         return float(h[0]), [[float(h[0])] * len(shape)] * N
     if form == "per_item" and N > 1:
-        per = [[float(v) * (1 + b) for v in h] for b in range(N)]
+        # documented: 2-dimensional tensor (N, D); item b: axis a scaled by (1 + b) and rotated so that items differ per axis
+        per = [[float(h[(a + b) % len(h)]) * (1 + b) for a in range(len(h))] for b in range(N)] if case.get("rotate_items") \
+            else [[float(v) * (1 + b) for v in h] for b in range(N)]
         return torch.tensor(per, dtype=torch.float64), per
+    if form == "per_item_iso" and N > 1:
+        # documented: (N, 1) tensor = isotropic spacing per item
+        per = [[float(h[0]) * (1 + 0.5 * b)] * len(shape) for b in range(N)]
+        return torch.tensor([[p[0]] for p in per], dtype=torch.float64), per
+    if form == "row":
+        # documented: (1, D) tensor
+        return torch.tensor([[float(v) for v in h]], dtype=torch.float32), [[float(v) for v in h]] * N
     return [float(v) for v in h], [[float(v) for v in h]] * N
 
 
@@ -280,9 +399,10 @@ def draw_spacing(draw, D, N, allow_none=True):
     kinds = ["cube", "world", "world"] if allow_none else ["world"]
     if draw(st.sampled_from(kinds)) == "cube":
         return None, "list"
-    form = draw(st.sampled_from(["list", "list", "scalar", "per_item"] if N > 1 else ["list", "list", "scalar"]))
+    form = draw(st.sampled_from(["list", "scalar", "row", "per_item", "per_item", "per_item_iso"] if N > 1
+                                else ["list", "list", "scalar", "row"]))
     h = draw(gen.spacings(D, 0.2, 5.0))
-    if form == "scalar":
+    if form in ("scalar", "per_item_iso"):
         h = [h[0]] * D
     return h, form
 
@@ -293,6 +413,20 @@ def draw_mode(draw, D, modes):
     if mode == "bspline":
         stride = draw(st.one_of(st.none(), st.sampled_from([1, 2, 3]), st.lists(st.sampled_from([1, 2, 3]), min_size=D, max_size=D)))
     return mode, stride
+
+
+def draw_sigma(draw, mode, D, order):
+    """`sigma`: None mostly; the kernel std of mode='gaussian' (radius kept small enough for the asserted interior to be
+    affordable), the pre-smoothing std of the other modes."""
+    if mode == "gaussian":
+        big = D == 2 or order == 1
+        return draw(st.sampled_from([None, None, 0.9, 1.1] if big else [None, None, 0.9]))
+    return draw(st.sampled_from([None, None, None, 0.6, 0.9, 1.1] if D == 2 else [None, None, None, 0.6, 0.9]))
+
+
+def draw_poly_shape(draw, D, mode, order, sigma, more2=6, more3=3):
+    lo = min_axis_len(mode, order, sigma)
+    return draw(st.lists(st.integers(lo, lo + (more2 if D == 2 else more3)), min_size=D, max_size=D))
 
 
 def draw_term1(draw, case, pq=None):
@@ -317,9 +451,13 @@ PQ_AFFINE = [(2, 1), (1, 1), (2, 0.5), (2, None), (1, None), (3, 1), (3, None), 
 def affine_cases(draw):
     D = draw(gen.dims())
     N = draw(st.sampled_from([1, 1, 2]))
-    case = {"D": D, "shape": draw_shape(draw, D), "N": N, "dtype": draw(gen.dtypes())}
+    case = {"D": D, "N": N, "dtype": draw(gen.dtypes())}
+    case["mode"], case["stride"] = draw_mode(draw, D, list(FULL_MODES) + list(INNER_MODES) + ["bspline", "sobel", "prewitt",
+                                                                                             "gaussian", "gaussian"])
+    case["sigma"] = draw_sigma(draw, case["mode"], D, 1)
+    case["shape"] = draw_poly_shape(draw, D, case["mode"], 1, case["sigma"])
     case["h"], case["spacing_form"] = draw_spacing(draw, D, N)
-    case["mode"], case["stride"] = draw_mode(draw, D, list(FULL_MODES) + list(INNER_MODES) + ["bspline", "sobel", "prewitt"])
+    case["rotate_items"] = draw(st.booleans())
     draw_term1(draw, case, PQ_AFFINE)
     translation = draw(st.sampled_from([False, False, False, False, True]))
     case["A"] = [0.0] * (D * D) if translation else draw(st.lists(gen.qfloat(-2.0, 2.0, 0.01), min_size=D * D, max_size=D * D))
@@ -333,6 +471,7 @@ def run_affine(case):
     eps = eps_of(dt)
     mode = case["mode"]
     term = case["term"]
+    sigma = case.get("sigma")
     A = mat(case["A"], D)
     sp_arg, per = spacing_arg(case, N)
     fields, Js = [], []
@@ -344,6 +483,8 @@ def run_affine(case):
     u = torch.tensor(unp, dtype=dt)
     u0 = u.clone()
     kw = dict(term_kwargs(case), mode=mode, spacing=sp_arg, stride=case["stride"])
+    if sigma is not None:
+        kw["sigma"] = sigma
     none = call_term(term, u, reduction="none", **kw)
     if not torch.equal(u, u0):
         raise Violation("input_modified", f"{term}_loss(mode={mode}) modified its input")
@@ -353,7 +494,11 @@ def run_affine(case):
         raise Violation("none_shape", f"{term} mode={mode} reduction='none' shape {tuple(none.shape)} != {want_shape}")
     if none.dtype != dt:
         raise Violation("none_dtype", f"{term} mode={mode}: result dtype {none.dtype} for input {dt}")
-    reg = region(mode, 1, D)
+    transl = all(v == 0 for v in case["A"])
+    # a translation is constant: replicate padding (finite differences, Gaussian kernels) keeps it constant up to the boundary
+    margins = [0] * D if transl else poly_margins(mode, 1, sigma, D, case["stride"])
+    reg = interior(margins)
+    env = gauss_env(sigma or DEFAULT_GAUSS_SIGMA, D, 1) if mode == "gaussian" else 0.0
     worst = 0.0
     vals = []
     bound_max = 0.0
@@ -361,27 +506,27 @@ def run_affine(case):
         hmin = min(spacing_of(shape, per[b]))
         U = float(np.abs(unp[b]).max())
         amax = max(abs(v) for row in Js[b] for v in row)
-        delta = 8 * (eps * U / hmin + EPS32 * amax)
+        delta = 8 * (eps * U / hmin + EPS32 * amax) + env * amax
         val = term_value(case, Js[b])
         bound = term_error(case, Js[b], delta) + 32 * eps * abs(val) * 4
         vals.append(val)
         bound_max = max(bound_max, bound)
         got = none[b:b + 1][reg]
         worst = max(worst, check_close(got, val, bound, f"affine_value:{cls}",
-                                       f"{term}{term_kwargs(case)} mode={mode} spacing={sp_arg} item {b}: point values on affine field"))
-    if mode not in INNER_MODES:
+                                       f"{term}{term_kwargs(case)} mode={mode} sigma={sigma} spacing={sp_arg} item {b}: point values "
+                                       f"on affine field (J={Js[b]}), margins {margins}"))
+    if not any(margins):
         mean = call_term(term, u, reduction="mean", **kw)
         total = call_term(term, u, reduction="sum", **kw)
         cnt = int(np.prod(want_shape[2:]))
         if mean.ndim != 0 or total.ndim != 0:
             raise Violation("reduction_shape", f"{term}: mean/sum are not scalars: {tuple(mean.shape)} {tuple(total.shape)}")
-        worst = max(worst, check_close(mean, sum(vals) / N, bound_max, f"affine_mean:{cls}", f"{term} mode={mode} reduction='mean'"))
-        worst = max(worst, check_close(total, sum(vals) * cnt, bound_max * cnt * N, f"affine_sum:{cls}", f"{term} mode={mode} reduction='sum'"))
-    transl = all(v == 0 for v in case["A"])
+        worst = max(worst, check_close(mean, sum(vals) / N, bound_max, f"affine_mean:{cls}", f"{term} mode={mode} sigma={sigma} reduction='mean'"))
+        worst = max(worst, check_close(total, sum(vals) * cnt, bound_max * cnt * N, f"affine_sum:{cls}", f"{term} mode={mode} sigma={sigma} reduction='sum'"))
     nonsym = any(abs(A[i][j] - A[j][i]) > 0.05 for i in range(D) for j in range(D) if i != j)
     labels = [f"term={term}", f"mode={mode}", f"D={D}", case["dtype"], f"N={N}",
               "spacing=default" if case["h"] is None else f"spacing={case['spacing_form']}",
-              "translation" if transl else "affine"]
+              "translation" if transl else "affine", "sigma" if sigma else "nosigma"]
     if term == "grad":
         labels.append(f"pq={case['p']},{case['q']}")
     return {"ratio": worst, "nontrivial": (nonsym or transl) and (mode is not None or case["h"] is not None), "labels": labels}
@@ -395,13 +540,13 @@ def run_affine(case):
 def second_cases(draw):
     D = draw(gen.dims())
     N = draw(st.sampled_from([1, 1, 2]))
-    case = {"D": D, "shape": draw_shape(draw, D, lo=6 if D == 2 else 5), "N": N, "dtype": draw(gen.dtypes()),
-            "term": draw(st.sampled_from(TERMS2))}
-    case["h"], case["spacing_form"] = draw_spacing(draw, D, N)
-    if case["spacing_form"] == "per_item":
-        case["spacing_form"] = "list"
+    case = {"D": D, "N": N, "dtype": draw(gen.dtypes()), "term": draw(st.sampled_from(TERMS2))}
     case["mode"], case["stride"] = draw_mode(draw, D, [None, None, "sobel", "prewitt", "forward_central_backward",
-                                                       "central", "forward", "backward", "bspline"])
+                                                       "central", "forward", "backward", "bspline", "gaussian", "gaussian"])
+    case["sigma"] = draw_sigma(draw, case["mode"], D, 2)
+    case["shape"] = draw_poly_shape(draw, D, case["mode"], 2, case["sigma"])
+    case["h"], case["spacing_form"] = draw_spacing(draw, D, N)
+    case["rotate_items"] = draw(st.booleans())
     case["A"] = draw(st.lists(gen.qfloat(-2.0, 2.0, 0.01), min_size=D * D, max_size=D * D))
     case["t"] = draw(st.lists(gen.qfloat(-3.0, 3.0, 0.01), min_size=D, max_size=D))
     case["extra"] = draw(st.sampled_from(["none", "quadratic", "quadratic", "smooth", "noise"]))
@@ -416,9 +561,9 @@ def second_cases(draw):
     return case
 
 
-def quad_tensor(case):
-    """Symmetric second-derivative tensors Q[c][a][b], scaled to the extent of the domain."""
-    D, shape, h = case["D"], case["shape"], case["h"]
+def quad_tensor(case, h):
+    """Symmetric second-derivative tensors Q[c][a][b], scaled to the extent of the domain (spacing h of the item)."""
+    D, shape = case["D"], case["shape"]
     ext = [1.0 if h is None else h[a] * (axis_len(shape, a) - 1) for a in range(D)]
     raw = case["Q"]
     Q = [[[0.0] * D for _ in range(D)] for _ in range(D)]
@@ -430,15 +575,15 @@ def quad_tensor(case):
     return Q
 
 
-def extra_field(case, b):
+def extra_field(case, b, h):
     D, shape, extra = case["D"], case["shape"], case["extra"]
     if extra == "none":
         return np.zeros((D,) + tuple(shape)), 0.0
     if extra == "quadratic":
-        Q = quad_tensor(case)
+        Q = quad_tensor(case, h)
         if b == 1:
             Q = [[[-0.5 * v for v in row] for row in Qc] for Qc in Q[::-1]]
-        w = quadratic_np(coord_arrays(shape, case["h"]), Q)
+        w = quadratic_np(coord_arrays(shape, h), Q)
         return w, Q
     if extra == "smooth":
         w = np.stack([smooth_field(shape, [case["waves"][(c + k + b) % D] for k in range(D)], case["amp"] * (1 - 0.3 * c)) for c in range(D)])
@@ -452,20 +597,25 @@ def run_second(case):
     dt = tdtype(case["dtype"])
     eps = eps_of(dt)
     mode, term = case["mode"], case["term"]
+    sigma = case.get("sigma")
     cls = mode_class(term, mode)
     A = mat(case["A"], D)
     sp_arg, per = spacing_arg(case, N)
-    X = coord_arrays(shape, case["h"])
-    hmin = min(spacing_of(shape, case["h"]))
+    hmin = min(min(spacing_of(shape, per[b])) for b in range(N))
     aff, ext, Qs = [], [], []
     for b in range(N):
-        aff.append(affine_np(X, item_matrix(A, b), case["t"]))
-        w, Q = extra_field(case, b)
+        aff.append(affine_np(coord_arrays(shape, per[b]), item_matrix(A, b), case["t"]))
+        w, Q = extra_field(case, b, per[b])
         ext.append(w)
         Qs.append(Q)
     aff, ext = np.stack(aff), np.stack(ext)
     kw = dict(mode=mode, spacing=sp_arg, stride=case["stride"])
-    reg = region(mode, 2, D)
+    if sigma is not None:
+        kw["sigma"] = sigma
+    # where second derivatives of affine (null space) / quadratic (central stencil needed) fields are exact
+    m_null = poly_margins(mode, 2, sigma, D, case["stride"])
+    m_quad = poly_margins(mode, 2, sigma, D, case["stride"], full_exact=False)
+    reg = interior(m_null)
     want_shape = out_shape(case, N)
     both = torch.tensor(aff + ext, dtype=dt)
     none = call_term(term, both, reduction="none", **kw)
@@ -481,12 +631,14 @@ def run_second(case):
     if extra == "none":
         d2err = 16 * eps * U / hmin ** 2
         bound = nterm * d2err ** 2
-        worst = check_close(none[reg], 0.0, bound, f"affine_nonzero:{cls}", f"{term} mode={mode} spacing={sp_arg} of an affine field")
-        if mode not in INNER_MODES:
+        worst = check_close(none[reg], 0.0, bound, f"affine_nonzero:{cls}",
+                            f"{term} mode={mode} sigma={sigma} spacing={sp_arg} of an affine field, margins {m_null}")
+        if not any(m_null):
             mean = call_term(term, both, reduction="mean", **kw)
             worst = max(worst, check_close(mean, 0.0, bound, f"affine_nonzero:{cls}", f"{term} mode={mode} (mean) of an affine field"))
     else:
         if extra == "quadratic":
+            env = gauss_env(sigma or DEFAULT_GAUSS_SIGMA, D, 2) if mode == "gaussian" else 0.0
             for b in range(N):
                 Q = Qs[b]
                 qmax = max(abs(v) for Qc in Q for row in Qc for v in row)
@@ -494,11 +646,11 @@ def run_second(case):
                     val = sum(v * v for Qc in Q for row in Qc for v in row)
                 else:
                     val = 0.5 * sum(sum(Qc[a][a] for a in range(D)) ** 2 for Qc in Q)
-                d2err = 16 * (eps * U / hmin ** 2 + EPS32 * qmax)
+                d2err = 16 * (eps * U / hmin ** 2 + EPS32 * qmax) + env * qmax
                 bound = nterm * (2 * qmax * d2err + d2err ** 2) + 64 * eps * val
-                r2 = region(mode if mode == "bspline" else "central", 2, D)  # one-sided boundary stencils are inexact on quadratics
-                worst = max(worst, check_close(none[b:b + 1][r2], val, bound, f"quadratic_value:{cls}",
-                                               f"{term} mode={mode} spacing={sp_arg} item {b}: interior values on quadratic + affine field"))
+                worst = max(worst, check_close(none[b:b + 1][interior(m_quad)], val, bound, f"quadratic_value:{cls}",
+                                               f"{term} mode={mode} sigma={sigma} spacing={sp_arg} item {b}: interior values on "
+                                               f"quadratic + affine field, margins {m_quad}"))
             d2max = max(abs(v) for Q in Qs for Qc in Q for row in Qc for v in row)
         else:
             d2max = 4 * W / hmin ** 2
@@ -507,11 +659,12 @@ def run_second(case):
         d2err = 16 * (eps * U / hmin ** 2)
         bound = nterm * (2 * d2max * d2err + d2err ** 2)
         worst = max(worst, check_close(none[reg], base[reg], bound, f"affine_invariance:{cls}",
-                                       f"{term} mode={mode} spacing={sp_arg}: value changed by adding an affine field to a {extra} field"))
+                                       f"{term} mode={mode} sigma={sigma} spacing={sp_arg}: value changed by adding an affine field "
+                                       f"to a {extra} field, margins {m_null}"))
     amax = max(abs(v) for v in case["A"])
     return {"ratio": worst, "nontrivial": amax > 0.1 and len(set(shape)) > 1,
             "labels": [f"term={term}", f"mode={mode}", f"extra={extra}", f"D={D}", case["dtype"], f"N={N}",
-                       "spacing=default" if case["h"] is None else f"spacing={case['spacing_form']}"]}
+                       "spacing=default" if case["h"] is None else f"spacing={case['spacing_form']}", "sigma" if sigma else "nosigma"]}
 
 
 # ---------------------------------------------------------------------------------------
@@ -619,7 +772,8 @@ def module_cases(draw):
         if case["term"] == "elasticity":
             case["lam"] = draw(gen.qfloat(0.1, 3.0, 0.1))
             case["mu"] = draw(gen.qfloat(0.1, 3.0, 0.1))
-            case["pair"] = list(draw(st.sampled_from([("lam", "mu"), ("lam", "G"), ("lam", "nu"), ("mu", "nu"), ("G", "nu"), ("G", "E"), ("mu", "E")])))
+            case["pair"] = list(draw(st.sampled_from([("lam", "mu"), ("lam", "G"), ("lam", "nu"), ("mu", "nu"), ("G", "nu"), ("G", "E"), ("mu", "E"),
+                                                      ("material",)])))
     else:
         case["term"] = draw(st.sampled_from(TERMS2))
     case["h"], case["spacing_form"] = draw_spacing(draw, D, N)
@@ -647,7 +801,10 @@ def run_modules(case):
     tk = term_kwargs(case)
     if term == "elasticity":
         qty = elastic_quantities(case["lam"], case["mu"])
-        tk = {ELASTIC_NAMES[n]: qty[n] for n in case["pair"]}
+        if case["pair"] == ["material"]:
+            tk = {"material_name": "rubber"}  # material preset: module and functional form must agree on it
+        else:
+            tk = {ELASTIC_NAMES[n]: qty[n] for n in case["pair"]}
     kw = dict(tk, mode=mode, sigma=case["sigma"], spacing=sp_arg, stride=case["stride"])
     # module forms keep their constructor arguments (public attributes, shown by extra_repr)
     cls = module_specs()[term]
@@ -977,6 +1134,14 @@ def ic_cases(draw):
             "pass_grid": draw(st.booleans())}
     exact = draw(st.sampled_from([True, False, False]))
     case["offset"] = [0.0] * D if exact else draw(st.lists(gen.qfloat(-0.2, 0.2, 0.01), min_size=D, max_size=D))
+    # flow fields sampled on a lattice of another size over the same cube domain (transform_grid() documents that the vector
+    # field is resized to the grid by interpolation; transform_points() samples it): per-axis size differences.  An affine
+    # field is reproduced exactly by linear interpolation inside the hull of its samples: with align_corners=False the hull
+    # (1 - 1/m) must contain that of the grid, hence m >= n there.
+    ac = bool(g["ac"])
+    for name, form in (("fsize", case["forward"]), ("isize", case["inverse"])):
+        if form == "flow" and draw(st.sampled_from([False, False, True])):
+            case[name] = [max(3, n + draw(st.integers(0 if not ac else -3, 4))) for n in g["size"]]
     return case
 
 
@@ -989,8 +1154,10 @@ def run_ic(case):
     size = list(g["size"])                   # (x, ...)
     shape = size[::-1]
     grid = make_grid(g)
+    fsize, isize = case.get("fsize"), case.get("isize")
+    resized = (fsize is not None and list(fsize) != size) or (isize is not None and list(isize) != size)
     use_grid = case["pass_grid"] or ac is False or (case["forward"] == "matrix" and case["inverse"] == "matrix") \
-        or case["units"] == "world"
+        or case["units"] == "world" or resized
     if not use_grid:
         # documented default: Grid(shape=forward.shape[2:]) -> unit spacing, align_corners=True
         spacing = np.ones(D)
@@ -1009,12 +1176,12 @@ def run_ic(case):
         norms = max(norms, float(np.abs(F).sum(1).max()), float(np.abs(I).sum(1).max()))
         I = I.copy()
         I[:, D] += d  # exact inverse followed by a constant offset: error vector = d at every point
-        fwd.append(as_transform(F, case["forward"], x, dt))
-        inv.append(as_transform(I, case["inverse"], x, dt))
+        fwd.append(as_transform(F, case["forward"], x if fsize is None else cube_coords(list(fsize)[::-1], ac), dt))
+        inv.append(as_transform(I, case["inverse"], x if isize is None else cube_coords(list(isize)[::-1], ac), dt))
     forward, inverse = torch.cat(fwd), torch.cat(inv)
     # mask / margin bookkeeping (reference)
     mask_t, mask_np = None, None
-    if case["mask"] is not None:
+    if case["mask"] is not None and not (fsize is not None and list(fsize) != size):  # 'mask' is documented with the size of 'forward'
         mN = N if case["mask_N"] == "N" else 1
         m = (hash_noise((mN, 1) + tuple(shape), case["key"], 0.0, 1.0) > 0.45).astype(np.float64)
         m[(slice(None), 0) + tuple(s // 2 for s in shape)] = 1.0  # keep the centre sample in the foreground
@@ -1049,7 +1216,8 @@ def run_ic(case):
     kind = "ic_exact_pair" if exact else ("ic_value_cube" if units == "cube" else "ic_units")
     r = check_close(none, expect, bound, kind,
                     f"{case['kind']} pair ({case['forward']}, {case['inverse']}) offset={case['offset']} units={units} ac={ac} "
-                    f"size={size} spacing={[float(v) for v in spacing]} margin={margin} mask={case['mask']}")
+                    f"size={size} spacing={[float(v) for v in spacing]} margin={margin} mask={case['mask']} "
+                    f"flow sizes forward={fsize} inverse={isize}")
     mean = L.inverse_consistency_loss(forward, inverse, reduction="mean", **kw)
     total = L.inverse_consistency_loss(forward, inverse, reduction="sum", **kw)
     nd = none.double()
@@ -1068,7 +1236,348 @@ def run_ic(case):
             "labels": [f"kind={case['kind']}", f"units={units}", f"ac={ac}", f"D={D}", case["dtype"], f"N={N}",
                        f"pair={case['forward']}-{case['inverse']}", "exact" if exact else "offset",
                        f"margin={'0' if not margin else type(margin).__name__}", f"mask={case['mask']}",
-                       "grid=given" if use_grid else "grid=default"]}
+                       "grid=given" if use_grid else "grid=default", "flows=resized" if resized else "flows=grid-size"]}
+
+
+# ---------------------------------------------------------------------------------------
+# facet 8: per-axis spacing laws on fields that vary along one axis only (all modes incl. gaussian, optional sigma)
+
+
+def draw_any_term(draw, case):
+    if draw(st.booleans()):
+        draw_term1(draw, case, PQ_SCALING)
+    else:
+        case["term"] = draw(st.sampled_from(TERMS2))
+
+
+@st.composite
+def axis_cases(draw):
+    D = draw(gen.dims())
+    N = draw(st.sampled_from([1, 2, 2]))
+    case = {"D": D, "N": N, "dtype": draw(gen.dtypes()), "k": draw(st.integers(0, D - 1))}
+    draw_any_term(draw, case)
+    case["mode"], case["stride"] = draw_mode(draw, D, ALL_MODES + ["gaussian", "gaussian"])
+    case["sigma"] = draw(st.sampled_from([None, None, 0.6, 0.9, 1.1]))
+    case["shape"] = draw_shape(draw, D, lo=5, hi2=10, hi3=7)
+    case["h"] = draw(st.lists(gen.logfloat(0.2, 5.0), min_size=D, max_size=D))
+    case["h2"] = draw(st.lists(gen.logfloat(0.2, 5.0), min_size=D, max_size=D))
+    case["spacing_form"] = draw(st.sampled_from(["list", "per_item"])) if N > 1 else "list"
+    case["rows"] = draw(st.sampled_from(["all", "last"])) if case["spacing_form"] == "per_item" else "all"
+    case["content"] = draw(st.sampled_from(["noise", "wave"]))
+    case["key"] = draw(st.integers(0, 10 ** 6))
+    case["amp"] = draw(gen.qfloat(0.1, 2.0, 0.1))
+    case["w"] = draw(gen.qfloat(0.3, 1.3, 0.01))
+    case["factors"] = draw(st.lists(st.one_of(gen.logfloat(0.25, 4.0), st.sampled_from([2.0, 0.5])), min_size=D, max_size=D))
+    case["s"] = draw(st.one_of(gen.logfloat(0.25, 4.0), st.sampled_from([2.0, 0.5])))
+    return case
+
+
+def axis_field(case):
+    """Field (N, D, ..., X) that varies along spatial axis k (x = 0) only, and its 1-D profiles (N, D, n_k)."""
+    D, N, shape, k = case["D"], case["N"], case["shape"], case["k"]
+    n = axis_len(shape, k)
+    if case["content"] == "noise":
+        prof = hash_noise((N, D, n), case["key"], -case["amp"], case["amp"])
+    else:
+        i = np.arange(n, dtype=np.float64)
+        prof = np.stack([np.stack([case["amp"] * (1 - 0.2 * c) * np.cos(case["w"] * i + 0.7 * c + 1.3 * b + 0.001 * (case["key"] % 1000))
+                                   + case.get("offset", 0.0) * (c + 1) for c in range(D)]) for b in range(N)])
+    view = [N, D] + [1] * D
+    view[2 + D - 1 - k] = n
+    return np.ascontiguousarray(np.broadcast_to(prof.reshape(view), (N, D) + tuple(shape))), prof
+
+
+def axis_bound(case, eps, M, U, Hb):
+    """Bound of the change of a point value when the derivatives along axis k (|.| <= 2M/h_k resp. 4M/h_k^2) and the vanishing
+    derivatives along the other axes carry the rounding error of values of size U and of float32 spacings."""
+    D, k = case["D"], case["k"]
+    hk, hmin = Hb[k], min(Hb)
+    m, _ = term_degree(case)
+    if m == 1:
+        d1 = 2 * M / hk
+        delta = 8 * (eps * U / hmin + EPS32 * d1)
+        Jenv = [[d1 if a == k else 0.0 for a in range(D)] for _ in range(D)]
+        return term_error(case, Jenv, delta) + 64 * eps * term_value(case, Jenv)
+    d2 = 4 * M / hk ** 2
+    d2err = 16 * (eps * U / hmin ** 2 + EPS32 * d2)
+    return D ** 3 * (2 * d2 * d2err + d2err ** 2) + 64 * eps * D * d2 ** 2
+
+
+def spacing_rows(H, form):
+    return [float(v) for v in H[0]] if form == "list" else torch.tensor(H, dtype=torch.float64)
+
+
+def run_axis(case):
+    D, N, k = case["D"], case["N"], case["k"]
+    dt = tdtype(case["dtype"])
+    eps = eps_of(dt)
+    term, mode, sigma = case["term"], case["mode"], case["sigma"]
+    cls = mode_class(term, mode)
+    unp, prof = axis_field(case)
+    u = torch.tensor(unp, dtype=dt)
+    form = case["spacing_form"]
+    H = [list(map(float, case["h"]))] * N if form == "list" else [list(map(float, case["h"])), list(map(float, case["h2"]))][:N]
+    changed = list(range(N)) if case["rows"] == "all" else [N - 1]
+    m, deg = term_degree(case)
+    kw = dict(term_kwargs(case), mode=mode, sigma=sigma, stride=case["stride"], reduction="none")
+    base = call_term(term, u, spacing=spacing_rows(H, form), **kw)
+    want_shape = out_shape(case, N)
+    if tuple(base.shape) != want_shape:
+        raise Violation("none_shape", f"{term} mode={mode} reduction='none' shape {tuple(base.shape)} != {want_shape}")
+    if float(base.min()) < 0:
+        raise Violation("negative", f"{term}{term_kwargs(case)} mode={mode}: negative point value {float(base.min()):.3g}")
+    U = float(np.abs(unp).max())
+    what = f"{term}{term_kwargs(case)} mode={mode} sigma={sigma} stride={case['stride']} D={D}; field varies along axis {k} only; spacing {H}"
+    # (1) the spacings of the other axes do not matter (all derivatives along them vanish)
+    H1 = [[Hb[a] * (case["factors"][a] if (a != k and b in changed) else 1.0) for a in range(D)] for b, Hb in enumerate(H)]
+    other = call_term(term, u, spacing=spacing_rows(H1, form), **kw)
+    # (2) scaling the spacing of axis k by s rescales every non-zero derivative by 1/s
+    s = float(case["s"])
+    g = s ** (-m * deg)
+    H2 = [[Hb[a] * (s if (a == k and b in changed) else 1.0) for a in range(D)] for b, Hb in enumerate(H)]
+    along = call_term(term, u, spacing=spacing_rows(H2, form), **kw)
+    r = 0.0
+    for b in range(N):
+        M = float(np.abs(prof[b]).max())
+        b0 = axis_bound(case, eps, M, U, H[b])
+        r = max(r, check_close(other[b:b + 1], base[b:b + 1].double(), b0 + axis_bound(case, eps, M, U, H1[b]), f"other_axis_spacing:{cls}",
+                               f"{what}: item {b} changed when the spacing became {H1} (items changed: {changed})"))
+        gb = g if b in changed else 1.0
+        r = max(r, check_close(along[b:b + 1], base[b:b + 1].double() * gb, gb * b0 + axis_bound(case, eps, M, U, H2[b]), f"axis_spacing_power:{cls}",
+                               f"{what}: item {b} is not {gb:.6g} = s^-{m * deg:g} times its value when the spacing became {H2} "
+                               f"(items changed: {changed})"))
+    aniso = max(H[0]) / min(H[0]) > 1.05
+    nontriv = aniso and float(base.max()) > 0 and abs(s - 1) > 0.05 and any(abs(case["factors"][a] - 1) > 0.05 for a in range(D) if a != k)
+    return {"ratio": r, "nontrivial": nontriv,
+            "labels": [f"term={term}", f"mode={mode}", f"D={D}", f"k={k}", case["dtype"], f"N={N}", f"spacing={form}", f"rows={case['rows']}",
+                       case["content"], "sigma" if sigma else "nosigma"]}
+
+
+# ---------------------------------------------------------------------------------------
+# facet 9: `sigma` is honoured by every term: Gaussian transfer function on sinusoids
+
+
+@st.composite
+def sigma_cases(draw):
+    D = draw(gen.dims())
+    N = draw(st.sampled_from([1, 1, 2]))
+    case = {"D": D, "N": N, "dtype": draw(gen.dtypes()), "k": draw(st.integers(0, D - 1))}
+    draw_any_term(draw, case)
+    case["mode"], case["stride"] = draw_mode(draw, D, ALL_MODES + ["gaussian"])
+    gauss = case["mode"] == "gaussian"
+    case["sigma"] = draw(st.sampled_from([None, 0.9, 1.1, 1.5] if gauss else list(SIGMAS)))
+    m = 2 if case["term"] in TERMS2 else 1
+    sig = case["sigma"] or DEFAULT_GAUSS_SIGMA
+    need = min_axis_len(case["mode"], m, sig) + 1
+    shape = draw_shape(draw, D, lo=5, hi2=8, hi3=6)
+    shape[D - 1 - case["k"]] = draw(st.integers(need, need + 6))
+    case["shape"] = shape
+    case["h"] = draw(st.lists(gen.logfloat(0.2, 5.0), min_size=D, max_size=D))
+    case["content"] = "wave"
+    case["key"] = draw(st.integers(0, 10 ** 6))
+    case["amp"] = draw(gen.qfloat(0.2, 2.0, 0.1))
+    case["offset"] = draw(gen.qfloat(-1.0, 1.0, 0.1))
+    case["w"] = draw(gen.qfloat(0.4, 1.3, 0.01))
+    return case
+
+
+def run_sigma(case):
+    D, N, k, shape = case["D"], case["N"], case["k"], case["shape"]
+    dt = tdtype(case["dtype"])
+    eps = eps_of(dt)
+    term, mode, sigma = case["term"], case["mode"], case["sigma"]
+    cls = mode_class(term, mode)
+    unp, prof = axis_field(case)
+    u = torch.tensor(unp, dtype=dt)
+    h = [float(v) for v in case["h"]]
+    w, amp = float(case["w"]), float(case["amp"])
+    m, deg = term_degree(case)
+    U = float(np.abs(unp).max())
+    kw = dict(term_kwargs(case), mode=mode, stride=case["stride"], spacing=h, reduction="none")
+    got = call_term(term, u, sigma=sigma, **kw)
+    what = f"{term}{term_kwargs(case)} mode={mode} sigma={sigma} stride={case['stride']} spacing={h}: field amp*cos({w} i + phi) along axis {k}"
+    margins = [0] * D
+    n = axis_len(shape, k)
+    if mode == "gaussian":
+        sig = sigma or DEFAULT_GAUSS_SIGMA
+        rad = m * kernel_radius(sig)
+        margins[k] = rad
+        centre, tol = gauss_derivative_response(sig, w, D, m)
+        i = np.arange(rad, n - rad, dtype=np.float64)
+        view = [1] * D
+        view[D - 1 - k] = len(i)
+        r = 0.0
+        for b in range(N):
+            ph = [0.7 * c + 1.3 * b + 0.001 * (case["key"] % 1000) for c in range(D)]
+            ac = [amp * (1 - 0.2 * c) for c in range(D)]
+            if m == 1:
+                zero = np.zeros_like(i)
+                J = [[(-ac[c] * centre * np.sin(w * i + ph[c]) / h[k]) if a == k else zero for a in range(D)] for c in range(D)]
+                want = term_value(case, J) + zero
+            else:
+                d = [-ac[c] * centre * np.cos(w * i + ph[c]) / h[k] ** 2 for c in range(D)]
+                want = sum(v * v for v in d) * (1.0 if term == "bending" else 0.5)
+            # every admitted kernel maps the profile to R'/R times the modelled derivative, |R' - R| <= tol; the terms are
+            # homogeneous of degree deg in the derivatives
+            bound = ((1 + tol / centre) ** deg - 1) * float(np.abs(want).max()) + axis_bound(case, eps, amp, U, h)
+            r = max(r, check_close(got[b:b + 1][interior(margins)], want.reshape([1, 1] + view), bound, "gaussian_response",
+                                   f"{what}, item {b}: values {m * kernel_radius(sig)} samples off the boundary vs the response "
+                                   f"R={centre:.6g} (+-{tol:.2g}) of the derivative-of-Gaussian kernel"))
+        nontriv = max(h) / min(h) > 1.05
+    else:
+        rad = kernel_radius(sigma)
+        margins[k] = rad * stride_list(case["stride"], D)[k] if mode == "bspline" else rad + m
+        centre, tol = smooth_response(sigma, w)
+        plain = call_term(term, u, sigma=None, **kw)
+        f = centre ** deg
+        reg = interior(margins)
+        # every admitted smoothing kernel scales the oscillating part by G' with |G' - G| <= tol (and keeps the constant part):
+        # all derivatives in the interior scale by G'/G, the terms are homogeneous of degree deg in the derivatives
+        bound = ((1 + tol / centre) ** deg - 1) * f * float(plain[reg].abs().max()) + axis_bound(case, eps, amp, U, h) * (1 + f)
+        r = check_close(got[reg], plain[reg].double() * f, bound, f"sigma_response:{cls}",
+                        f"{what}: values {margins[k]} samples off the boundary are not G^{deg:g} = {f:.6g} times the values without "
+                        f"sigma (G = {centre:.6g} +- {tol:.2g}: Gaussian transfer function at this frequency)")
+        nontriv = f < 0.95
+    return {"ratio": r, "nontrivial": nontriv,
+            "labels": [f"term={term}", f"mode={mode}", f"D={D}", f"k={k}", case["dtype"], f"N={N}", f"sigma={sigma}"]}
+
+
+# ---------------------------------------------------------------------------------------
+# facet 10: the derivative modes are what their names / the docstring say, on arbitrary fields with anisotropic spacing
+
+REF_MODES = [None, "forward_central_backward", "central", "forward", "backward", "sobel", "prewitt", "bspline"]
+
+
+@st.composite
+def moderef_cases(draw):
+    D = draw(gen.dims())
+    N = draw(st.sampled_from([1, 2]))
+    case = {"D": D, "N": N, "dtype": draw(gen.dtypes())}
+    case["mode"], case["stride"] = draw_mode(draw, D, REF_MODES)
+    if case["mode"] == "bspline" and draw(st.booleans()):
+        case["term"] = draw(st.sampled_from(TERMS2))
+    else:
+        draw_term1(draw, case, PQ_SCALING)
+    case["shape"] = draw_shape(draw, D, lo=5, hi2=9, hi3=7)
+    case["h"], case["spacing_form"] = draw_spacing(draw, D, N)
+    case["rotate_items"] = True
+    case["key"] = draw(st.integers(0, 10 ** 6))
+    case["amp"] = draw(gen.qfloat(0.1, 2.0, 0.1))
+    return case
+
+
+def fd_np(v, axis, mode, h):
+    """Finite differences of the docstring: forward (u[i+1]-u[i])/h, backward (u[i]-u[i-1])/h, central (u[i+1]-u[i-1])/2h;
+    'forward_central_backward': forward at the lower, backward at the upper boundary, central in between.  Samples whose
+    stencil leaves the array are NaN (never asserted)."""
+    v = np.moveaxis(v, axis, -1)
+    out = np.full(v.shape, np.nan)
+    if mode in ("central", "forward_central_backward"):
+        out[..., 1:-1] = (v[..., 2:] - v[..., :-2]) / (2 * h)
+    if mode == "forward":
+        out[..., :-1] = (v[..., 1:] - v[..., :-1]) / h
+    if mode == "backward":
+        out[..., 1:] = (v[..., 1:] - v[..., :-1]) / h
+    if mode == "forward_central_backward":
+        out[..., 0] = (v[..., 1] - v[..., 0]) / h
+        out[..., -1] = (v[..., -1] - v[..., -2]) / h
+    return np.moveaxis(out, -1, axis)
+
+
+def average_np(v, axis, centre_weight):
+    """Textbook Sobel (1 2 1)/4 / Prewitt (1 1 1)/3 averaging along one axis; boundary samples NaN (never asserted)."""
+    v = np.moveaxis(v, axis, -1)
+    out = np.full(v.shape, np.nan)
+    out[..., 1:-1] = (v[..., :-2] + centre_weight * v[..., 1:-1] + v[..., 2:]) / (2 + centre_weight)
+    return np.moveaxis(out, -1, axis)
+
+
+def spline_derivative(coef, stride, orders):
+    """Tensor-product cubic B-spline with coefficients coef (..., X) of one component: partial derivative of order orders[a]
+    along axis a (x-order) at lattice coordinates 1 + j / s_a (w.r.t. the coefficient index)."""
+    D = coef.ndim
+    v = coef
+    for ax in range(D):
+        n = coef.shape[D - 1 - ax]
+        s = stride[ax]
+        uu = 1.0 + np.arange((n - 3) * s, dtype=np.float64) / s
+        v = ref.bspline_eval_1d(v, uu, derivative=orders[ax], axis=D - 1 - ax)
+    return v
+
+
+def reference_jacobian(comp, mode, h, stride):
+    """comp (D, ..., X) float64 -> J[c][a] arrays of du_c/dx_a per the definition of the mode."""
+    D = comp.shape[0]
+    J = [[None] * D for _ in range(D)]
+    for c in range(D):
+        for a in range(D):
+            if mode == "bspline":
+                J[c][a] = spline_derivative(comp[c], stride, [1 if x == a else 0 for x in range(D)]) / h[a]
+                continue
+            v = comp[c]
+            if mode in SMOOTHED:
+                for o in range(D):
+                    if o != a:
+                        v = average_np(v, D - 1 - o, 2.0 if mode == "sobel" else 1.0)
+            J[c][a] = fd_np(v, D - 1 - a, "forward_central_backward" if mode in SMOOTHED or mode is None else mode, h[a])
+    return J
+
+
+def run_moderef(case):
+    D, N, shape = case["D"], case["N"], case["shape"]
+    dt = tdtype(case["dtype"])
+    eps = eps_of(dt)
+    term, mode = case["term"], case["mode"]
+    cls = mode_class(term, mode)
+    unp = hash_noise((N, D) + tuple(shape), case["key"], -case["amp"], case["amp"])
+    u = torch.tensor(unp, dtype=dt)
+    data = u.double().numpy()
+    sp_arg, per = spacing_arg(case, N)
+    sl = stride_list(case["stride"], D)
+    none = call_term(term, u, reduction="none", mode=mode, spacing=sp_arg, stride=case["stride"], **term_kwargs(case))
+    want_shape = out_shape(case, N)
+    if tuple(none.shape) != want_shape:
+        raise Violation("none_shape", f"{term} mode={mode} reduction='none' shape {tuple(none.shape)} != {want_shape}")
+    # asserted samples: documented everywhere for forward_central_backward (= None) and bspline; the replicate-padded
+    # boundary layer of forward/backward/central and of the Sobel/Prewitt averaging is not documented
+    margins = [0] * D if mode in (None, "forward_central_backward", "bspline") else [1] * D
+    reg = interior(margins)
+    M = float(np.abs(data).max())
+    r = 0.0
+    for b in range(N):
+        h = spacing_of(shape, per[b])
+        hmin = min(h)
+        if term in TERMS1:
+            J = reference_jacobian(data[b], mode, h, sl)
+            want = term_value(case, J)
+            Jenv = [[float(np.nanmax(np.abs(J[c][a]))) for a in range(D)] for c in range(D)]
+            delta = 8 * (eps * M / hmin + EPS32 * max(max(row) for row in Jenv))
+            bound = term_error(case, Jenv, delta) + 64 * eps * term_value(case, Jenv)
+        else:
+            acc, curv = 0.0, []
+            for c in range(D):
+                lap = 0.0
+                for a in range(D):
+                    for a2 in range(a, D):
+                        orders = [0] * D
+                        orders[a] += 1
+                        orders[a2] += 1
+                        d = spline_derivative(data[b, c], sl, orders) / (h[a] * h[a2])
+                        acc = acc + (1.0 if a == a2 else 2.0) * d * d
+                        if a == a2:
+                            lap = lap + d
+                curv.append(lap)
+            want = acc if term == "bending" else 0.5 * sum(v * v for v in curv)
+            d2max = 4 * M / hmin ** 2
+            d2err = 16 * eps * M / hmin ** 2 + 4 * EPS32 * d2max
+            bound = D ** 3 * (2 * d2max * d2err + d2err ** 2)
+        r = max(r, check_close(none[b:b + 1][reg], np.asarray(want)[None, None][reg], bound, f"mode_definition:{cls}",
+                               f"{term}{term_kwargs(case)} mode={mode} stride={case['stride']} spacing={sp_arg} item {b}: point values "
+                               f"on a noise field vs the numpy model of the mode (margins {margins})"))
+    aniso = case["h"] is None and len(set(shape)) > 1 or case["h"] is not None and max(per[0]) / min(per[0]) > 1.05
+    return {"ratio": r, "nontrivial": bool(aniso),
+            "labels": [f"term={term}", f"mode={mode}", f"D={D}", case["dtype"], f"N={N}",
+                       "spacing=default" if case["h"] is None else f"spacing={case['spacing_form']}"]}
 
 
 # ---------------------------------------------------------------------------------------
@@ -1096,6 +1605,40 @@ def selftest():
     eps_t = 0.5 * (Jn + Jn.T)
     assert abs(term_value(c, J) - (1.3 / 2 * np.trace(Jn) ** 2 + 0.7 * (eps_t ** 2).sum())) < 1e-12
     assert abs(grad_value(J, 2, None) - np.sqrt((Jn ** 2).sum())) < 1e-12
+    # Gaussian kernel model: direct convolution of an affine / quadratic / cosine sequence with the sampled kernels
+    for sigma in (DEFAULT_GAUSS_SIGMA,) + SIGMAS + (1.5,):
+        x, g = kernel_samples(sigma)
+        k1 = g * x / sigma ** 2
+        M0, bb = kernel_moments(sigma)
+        i = np.arange(-30, 31, dtype=np.float64)
+
+        def corr(f, kern):
+            return np.array([float((kern * f[j - len(x) // 2: j + len(x) // 2 + 1]).sum()) for j in range(len(x) // 2, len(f) - len(x) // 2)])
+
+        d = corr(1.7 * i + 0.3, k1)
+        assert np.abs(d - 1.7 * bb).max() < 1e-12 and abs(bb * M0 - 1) <= gauss_env(sigma, 2, 1)
+        d2 = corr(corr(0.5 * 0.8 * i * i - i, k1), k1)
+        assert np.abs(d2 - 0.8 * bb * bb).max() < 1e-12 and abs(bb * bb * M0 ** 4 - 1) <= gauss_env(sigma, 3, 2)
+        w = 0.77
+        c, tol = smooth_response(sigma, w)
+        sm = corr(np.cos(w * i + 0.4), g / M0)
+        ii = i[len(x) // 2: len(i) - len(x) // 2]
+        assert np.abs(sm - c * np.cos(w * ii + 0.4)).max() < 1e-12 and 0 < c < 1
+        R, tol = gauss_derivative_response(sigma, w, 1, 1)
+        assert np.abs(corr(np.cos(w * i + 0.4), k1) + R * np.sin(w * ii + 0.4)).max() < 1e-12
+        assert abs(R - w * math.exp(-0.5 * (sigma * w) ** 2)) <= tol < 0.25
+    # stencil models on a quadratic: central exact, forward/backward off by half a step
+    q = (np.arange(7.0) * 0.5) ** 2
+    assert np.abs(fd_np(q, 0, "central", 0.5)[1:-1] - 2 * np.arange(7.0)[1:-1] * 0.5).max() < 1e-12
+    assert np.abs(fd_np(q, 0, "forward", 0.5)[:-1] - (2 * np.arange(7.0)[:-1] * 0.5 + 0.5)).max() < 1e-12
+    assert np.abs(fd_np(q, 0, "backward", 0.5)[1:] - (2 * np.arange(7.0)[1:] * 0.5 - 0.5)).max() < 1e-12
+    fcb = fd_np(q, 0, "forward_central_backward", 0.5)
+    assert fcb[0] == fd_np(q, 0, "forward", 0.5)[0] and fcb[-1] == fd_np(q, 0, "backward", 0.5)[-1] and not np.isnan(fcb).any()
+    # spline_derivative agrees with the second-derivative helper of the bending reference
+    cf = hash_noise((5, 6), 3, -1.0, 1.0)
+    sd = spline_second_derivatives(cf, [2, 3], [1.0, 1.0])
+    assert np.abs(sd[(0, 1)] - spline_derivative(cf, [2, 3], [1, 1])).max() < 1e-12
+    assert np.abs(sd[(1, 1)] - spline_derivative(cf, [2, 3], [0, 2])).max() < 1e-12
     # exact inverse pairs
     F, I = contraction_pair([0.5, -1, 1, 0.2], [1.0, -1.0], 1.0, np.array([1.0, 0.9]))
     assert np.abs(ref.hmul(F, I) - ref.hom(np.eye(2), np.zeros(2))).max() < 1e-12
@@ -1134,4 +1677,21 @@ FACETS = [
                "as matrix / flow / mixed, composed with a constant offset in cube units; units x align_corners x anisotropic "
                "size/spacing x margins (int / float) x masks (float / bool / uint8, batch 1 or N); non-trivial = anisotropic size and spacing",
           quick=600, thorough=10000, shards=16, quick_shards=2),
+    Facet("per_axis_spacing", run_axis, strategy=axis_cases,
+          rule="fields that vary along one spatial axis k only (1-D noise / cosine profiles per component and item), every term x every mode "
+               "(incl. gaussian, bspline with strides) x optional sigma; spacing as list or (N, D) tensor with different rows; changing the "
+               "spacings of the other axes changes nothing, scaling the spacing of axis k by s rescales by s^(-m k), in all items or in the "
+               "last item only; non-trivial = anisotropic spacing, s != 1, some other-axis factor != 1, non-zero loss",
+          quick=400, thorough=7000, shards=16, quick_shards=3),
+    Facet("sigma_response", run_sigma, strategy=sigma_cases,
+          rule="cosine profiles along one axis plus a constant; every term x every mode; non-gaussian modes: L(u; sigma) = G(w)^k L(u; None) in "
+               "the interior (G = transfer function of the Gaussian at the frequency of the profile); mode='gaussian' (sigma None / 0.9 / 1.1 / "
+               "1.5): analytic values from the response of the derivative-of-Gaussian kernel; tolerances = distance between the sampled "
+               "truncated kernel and the continuous Gaussian; non-trivial = G^k < 0.95 resp. anisotropic spacing",
+          quick=300, thorough=5000, shards=16, quick_shards=3),
+    Facet("mode_definitions", run_moderef, strategy=moderef_cases,
+          rule="noise fields, first-order terms x {None, forward_central_backward, central, forward, backward, sobel, prewitt, bspline with strides} "
+               "and bending / curvature for bspline; default / list / scalar / (1, D) / (N, D) / (N, 1) spacing; point values vs a numpy model "
+               "of the stencils (docstring) resp. the tensor-product reference spline; non-trivial = anisotropic spacing",
+          quick=350, thorough=6000, shards=16, quick_shards=3),
 ]
